@@ -145,7 +145,9 @@ def classify_leak(res):
         owner = ev[0][2] if ev else -1
         owner_finished = any(t == owner for (_, t) in tr.finished)
         reg_step = next((st for (st, k, _) in ev if k == "register"), None)
-        if not sig:
+        if tr.default_action_at is not None:
+            c = "leak_sigint_met_no_handler"
+        elif not sig:
             c = "leak_normal_exit_owner_%s" % ("finished" if owner_finished else "alive")
         else:
             first_sig = tr.signals_delivered[0]
@@ -259,6 +261,8 @@ def run_case(seed, i, tier):
         cr.probes.update(tracecheck.probes(tr))
         cr.decision_hashes.append(tr.decision_hash())
         cr.arrival_hashes.append(tr.arrival_hash())
+        if tr.default_action_at is not None:
+            cr.faults["sigint_before_handler_registration(default_action)"] += 1
         if tr.signals_delivered:
             cr.faults["sigint_delivered"] += len(tr.signals_delivered)
             if len(tr.signals_delivered) > 1:
@@ -426,7 +430,7 @@ RULE = ("one case = 1..3 compressed/archived journal or evtx sources (shipped No
         "TMPDIR fills up after N bytes (ENOSPC, N on 0/1/64KiB edges/random) or stdout's reader goes away after N bytes "
         "(EPIPE) or reads of the inputs and of the extracted copies fail after N bytes (EIO), 30% of them with a SIGINT as well. non-trivial = every "
         "run (each ends in process exit with a private TMPDIR inspected); distinct = (scenario, signal steps, decision sequence)")
-ASSUMPTIONS = ["SIGINT is delivered from handler registration onward (before that the default action kills the process and no temp file exists yet)",
+ASSUMPTIONS = ["a SIGINT that arrives while no handler is installed ends the process by the default action at that step (exit code 97 of the simulator); TMPDIR is inspected all the same",
                "the handler closure runs on a dedicated thread, serially per signal, as the ctrlc crate does",
                "journal / evtx inputs limited to the files shipped in /repo/logs"]
 
